@@ -246,6 +246,26 @@ func (g *Gen) applyContractX(st *State, c *Contract, key string, names []string,
 	}
 	sc := g.specCtxVars(st, st, vars)
 	sc.calleeKey = key
+	// assertions the caller's contract attaches to this call site (checked before the call)
+	if g.C != nil && len(g.C.CallAsserts) > 0 && !g.quiet {
+		ord := g.preCallOrd[short]
+		g.preCallOrd[short] = ord + 1
+		for _, cl := range g.C.CallAsserts {
+			if cl.CallOrd != ord || !(short == cl.Callee || strings.HasSuffix(short, "."+cl.Callee) || strings.HasSuffix(short, "/"+cl.Callee)) {
+				continue
+			}
+			sca := g.specCtxVars(st, g.entry, vars)
+			sca.useParams = true
+			sca.atBlock = g.curBlock
+			t, err := sca.boolTerm(cl.E)
+			if err != nil {
+				g.BindErrs = append(g.BindErrs, fmt.Sprintf("assert %q: %v", cl.Text, err))
+				continue
+			}
+			g.usedCallAssumes[cl] = true
+			g.oblige(st, "assert", "@"+short, cl.Text, pos, t)
+		}
+	}
 	for _, cl := range c.Requires {
 		t, err := sc.boolTerm(cl.E)
 		if err != nil {
@@ -266,10 +286,43 @@ func (g *Gen) applyContractX(st *State, c *Contract, key string, names []string,
 		g.Assumed["assume "+cl.Text+" because "+cl.Why] = true
 	}
 	pre := st.clone()
+	// components kept by a preserves fields(T) clause
+	var keep func(string) bool
+	if c.Preserves != nil {
+		var pts []types.Type
+		var prefixes []string
+		for _, m := range c.Preserves.Mods {
+			if call, ok := m.(*ECall); ok {
+				if id, ok := call.Fun.(*EIdent); ok && id.Name == "fields" && len(call.Args) == 1 {
+					tn := ExprString(call.Args[0])
+					if strings.HasPrefix(tn, "map[") {
+						prefixes = append(prefixes, "M:"+tn+":")
+						continue
+					}
+					if ty, err := sc.typeByName(tn); err == nil {
+						pts = append(pts, ty)
+					}
+				}
+			}
+		}
+		keep = func(n string) bool {
+			for _, t := range pts {
+				if compOfType(n, t) {
+					return true
+				}
+			}
+			for _, p := range prefixes {
+				if strings.HasPrefix(n, p) {
+					return true
+				}
+			}
+			return false
+		}
+	}
 	switch {
 	case c.Pure:
 	case c.Modifies == nil || c.Modifies.Star:
-		g.havocAll(st, short)
+		g.havocAllExcept(st, short, keep)
 	default:
 		// every location of the modifies clause denotes a location of the pre-state
 		frozen := st.clone()
@@ -287,6 +340,9 @@ func (g *Gen) applyContractX(st *State, c *Contract, key string, names []string,
 		for _, m := range c.Preserves.Mods {
 			if call, ok := m.(*ECall); ok {
 				if id, ok := call.Fun.(*EIdent); ok && id.Name == "fields" && len(call.Args) == 1 {
+					if strings.HasPrefix(ExprString(call.Args[0]), "map[") {
+						continue // handled by keep()
+					}
 					ty, err := sc.typeByName(ExprString(call.Args[0]))
 					if err != nil {
 						g.BindErrs = append(g.BindErrs, fmt.Sprintf("call %s: preserves %s: %v", short, ExprString(m), err))
@@ -502,6 +558,15 @@ func (g *Gen) ret(st *State, x *ssa.Return) {
 		for _, m := range g.C.Preserves.Mods {
 			if call, ok := m.(*ECall); ok {
 				if id, ok := call.Fun.(*EIdent); ok && id.Name == "fields" && len(call.Args) == 1 {
+					if tn := ExprString(call.Args[0]); strings.HasPrefix(tn, "map[") {
+						for _, n := range g.uniOrder {
+							if strings.HasPrefix(n, "M:"+tn+":") && st.Heap[n] != g.entry.Heap[n] {
+								goal := g.unchangedOutside(n, st.Heap[n], g.entry.Heap[n], g.entry.Clk, nil, true)
+								g.obligeNamed(st, "preserves", g.frameOrd(n), "preserves: "+n+" unchanged", x.Pos(), goal)
+							}
+						}
+						continue
+					}
 					ty, err := scp.typeByName(ExprString(call.Args[0]))
 					if err != nil {
 						g.BindErrs = append(g.BindErrs, fmt.Sprintf("preserves %s: %v", ExprString(m), err))
